@@ -678,11 +678,11 @@ impl CompactThetaSketch {
                     .map_err(insufficient_data("<unused_u32>"))?;
                 let entries = Self::read_entries(&mut cursor, num_entries, MAX_THETA)?;
                 Ok(Self {
+                    empty: entries.is_empty(),
                     entries,
                     theta: MAX_THETA,
                     seed_hash,
                     ordered: true,
-                    empty: true,
                 })
             }
             V2_PREAMBLE_ESTIMATE => {
